@@ -15,6 +15,8 @@ pub mod c14;
 pub mod c15;
 pub mod c16;
 pub mod c17;
+pub mod c18;
+pub mod c19;
 pub mod c20;
 
 use crate::out::Ctx;
@@ -40,6 +42,8 @@ pub fn dispatch(prop: &str, ctx: &Ctx, _rest: &[String]) -> bool {
         "c15" => c15::run(ctx),
         "c16" => c16::run(ctx),
         "c17" => c17::run(ctx),
+        "c18" => c18::run(ctx),
+        "c19" => c19::run(ctx),
         "c20" => c20::run(ctx),
         _ => return false,
     }
